@@ -343,10 +343,44 @@ gen_c14 (gen_t *g, rng_t *r, scenario_t *sc, int tier)
     }
 }
 
+/* glyph-cache churn: fill a (small) table while frozen, remove most of it so that
+ * tombstones pile up, thaw (which may dump the table), and use the cache again */
+static void
+gen_c20_glyph_churn (gen_t *g, rng_t *r, scenario_t *sc)
+{
+    int rounds = (int)rng_range (r, 1, 3), k, i, c = 0;
+    gen_bits (g, 0, FC_ALPHA, 8, 8, 0);
+    gen_bits (g, 1, FC_32, 8, 8, 0);
+    if (rng_chance (r, 1, 2)) gen_destroy_cb (g, 0);
+    gen_glyph_op (g, MOP_GC_CREATE, c, 0, 0);
+    for (k = 0; k < rounds; k++)
+    {
+	int n_ins = (int)rng_range (r, 6, 15), n_rem;
+	int64_t a[12];
+	gen_glyph_op (g, MOP_GC_FREEZE, c, 0, 0);
+	for (i = 0; i < n_ins; i++)
+	{
+	    /* distinct keys, consecutive sums: neighbouring slots, so that removals leave tombstones */
+	    int64_t b[9] = { 0, 0, 0, c, i % 4, i, 0, 0, (int64_t)rng_n (r, 2) };
+	    sc_addv (sc, MOP_GC_INSERT, 9, b);
+	}
+	n_rem = (int)rng_range (r, n_ins / 2, n_ins);
+	for (i = 0; i < n_rem; i++)
+	{
+	    a[0] = a[1] = a[2] = 0; a[3] = c; a[4] = i % 4; a[5] = i;
+	    sc_addv (sc, MOP_GC_REMOVE, 6, a);
+	}
+	gen_glyph_op (g, MOP_GC_THAW, c, 0, 0);
+	if (rng_chance (r, 1, 2)) gen_composite (g, 1, 1, -1, 0);
+    }
+    if (rng_chance (r, 1, 2)) gen_glyph_op (g, MOP_GC_DESTROY, c, 0, 0);
+}
+
 static void
 gen_c20 (gen_t *g, rng_t *r, scenario_t *sc, int tier)
 {
     int n_ops = (int)rng_range (r, 20, tier ? 90 : 60), i;
+    if (rng_chance (r, 1, 6)) { gen_c20_glyph_churn (g, r, sc); n_ops /= 3; }
     for (i = 0; i < n_ops; i++)
     {
 	int roll = (int)rng_n (r, 100);
